@@ -435,9 +435,8 @@ def shape_defs(rng, builtins):
     # rule-set scoping (C16/C12/C04): the SAME local name bound to different regexes in different rule sets, used in rules and in
     # syntactically identical right contexts; a top-level binding visible everywhere
     for i in range(4):
-        a, b, c, t = rng.sample(LETTERS, 4)
-        lo, hi = min(a, b, c), max(a, b, c)
-        body = ('plus', set_((lo, hi)))
+        a, b, c, t, p_, q_ = rng.sample([ord(ch) for ch in 'abcdefgh'], 6)
+        body = ('plus', set_(p_, q_))          # disjoint from the context characters, so the context decides
         sets = []
         for j, bound in enumerate([chr_(a), chr_(b), str_(chr(c) + chr(a)), set_(a, c)][: 2 + i % 3]):
             nm = 'Init' if j == 0 else 'R%d' % j
